@@ -1,10 +1,11 @@
-\* C18 quick tier: layouts of 1..3 tables with lengths 0..5, every k, every mode, every set of needed tables
+\* C18 quick tier: layouts of 1..3 tables with lengths 0..5, every k, every mode, every classification of the tables (decoded / raw copy / skipped)
 CONSTANTS
   MaxTables = 3
   MaxLen = 5
   WModes = {"exact", "atomic", "short"}
   RModes = {"trunc", "failat", "strunc", "sfail"}
   Chunk = 3
+  Probe = TRUE
 SPECIFICATION Spec
 INVARIANT WErrIffShort
 INVARIANT WCountAccepted
